@@ -37,7 +37,8 @@ type C19Case struct {
 	KillFrac int        `json:"kill_frac,omitempty"` // rm-kill: per-mille of the measured duration
 	// InSpell: how the input directory is spelled on the command line (tree scenarios): "" = "src", "dot-slash" = "./src",
 	// "trailing-slash" = "src/", "dot-slash-trailing" = "./src/", "abs" = absolute path, "dotdot" = "src/../src",
-	// "double-slash" = "src//", "cwd-dot" = "." with the tool started inside the directory, "norec" = "src/." (documented: no recursion)
+	// "double-slash" = "src//", "cwd-dot" = "." with the tool started inside the directory, "norec" = "src/." (documented: no recursion),
+	// "named-dot" = the directory really is named "src." (a trailing dot in the NAME, not the "dir/." spelling)
 	InSpell string `json:"in_spell,omitempty"`
 }
 
@@ -192,7 +193,14 @@ type c19Out struct {
 func runC19(r *vrt.Run, c C19Case, work string) (o c19Out) {
 	os.RemoveAll(work)
 	defer os.RemoveAll(work)
-	src := filepath.Join(work, "src")
+	// "named-dot": the directories given to -i are really NAMED with a trailing dot ("src.", "comp.", "out."),
+	// which is not the documented "dir/." spelling
+	sfx := ""
+	spell := c.InSpell
+	if c.InSpell == "named-dot" && (c.Scenario == "inplace" || c.Scenario == "outdir" || c.Scenario == "outdir-force" || c.Scenario == "force-over-existing") {
+		sfx, spell = ".", ""
+	}
+	src := filepath.Join(work, "src"+sfx)
 	content, err := writeTree(src, c.Tree)
 	if err != nil {
 		o.label = "skipped:cannot-create-tree"
@@ -220,7 +228,7 @@ func runC19(r *vrt.Run, c C19Case, work string) (o c19Out) {
 	}
 	switch c.Scenario {
 	case "inplace":
-		inArg, cwd := spellDir(work, "src", c.InSpell)
+		inArg, cwd := spellDir(work, "src"+sfx, spell)
 		res := runCLI(cwd, nil, append(cargs, "-i", inArg)...)
 		if res.rc != 0 {
 			o.msg = fmt.Sprintf("compressing the tree in place (-i %s) failed: %s", inArg, show(res))
@@ -253,7 +261,7 @@ func runC19(r *vrt.Run, c C19Case, work string) (o c19Out) {
 			}
 		}
 		// move the compressed files to a fresh tree and decompress there
-		comp := filepath.Join(work, "comp")
+		comp := filepath.Join(work, "comp"+sfx)
 		for k := range content {
 			os.MkdirAll(filepath.Dir(filepath.Join(comp, k)), 0o755)
 			if err := os.Rename(filepath.Join(src, k+".knz"), filepath.Join(comp, k+".knz")); err != nil {
@@ -261,9 +269,9 @@ func runC19(r *vrt.Run, c C19Case, work string) (o c19Out) {
 				return
 			}
 		}
-		dArg, dcwd := spellDir(work, "comp", c.InSpell)
+		dArg, dcwd := spellDir(work, "comp"+sfx, spell)
 		if c.InSpell == "norec" {
-			dArg, dcwd = "comp", work
+			dArg, dcwd = "comp"+sfx, work
 		}
 		res = runCLI(dcwd, nil, "-d", "-v", "0", "-j", dj, "-i", dArg)
 		if res.rc != 0 {
@@ -280,13 +288,13 @@ func runC19(r *vrt.Run, c C19Case, work string) (o c19Out) {
 			o.msg = "tree not restored: " + d
 		}
 	case "outdir", "outdir-force", "force-over-existing":
-		os.MkdirAll(filepath.Join(work, "out"), 0o755)
+		os.MkdirAll(filepath.Join(work, "out"+sfx), 0o755)
 		os.MkdirAll(filepath.Join(work, "back"), 0o755)
-		inArg, cwd := spellDir(work, "src", c.InSpell)
-		a := append(cargs, "-i", inArg, "-o", relTo(work, cwd, "out"))
-		dArg, dcwd := spellDir(work, "out", c.InSpell)
+		inArg, cwd := spellDir(work, "src"+sfx, spell)
+		a := append(cargs, "-i", inArg, "-o", relTo(work, cwd, "out"+sfx))
+		dArg, dcwd := spellDir(work, "out"+sfx, spell)
 		if c.InSpell == "norec" {
-			dArg, dcwd = "out", work
+			dArg, dcwd = "out"+sfx, work
 		}
 		d := []string{"-d", "-v", "0", "-j", dj, "-i", dArg, "-o", relTo(work, dcwd, "back")}
 		want := content
@@ -304,7 +312,7 @@ func runC19(r *vrt.Run, c C19Case, work string) (o c19Out) {
 		if c.Scenario == "force-over-existing" {
 			// every output already exists and is LONGER than what will be written: -f must replace it entirely
 			for k, v := range want {
-				for _, pre := range []string{filepath.Join(work, "out", k+".knz"), filepath.Join(work, "back", k)} {
+				for _, pre := range []string{filepath.Join(work, "out"+sfx, k+".knz"), filepath.Join(work, "back", k)} {
 					os.MkdirAll(filepath.Dir(pre), 0o755)
 					os.WriteFile(pre, bytes.Repeat([]byte("stale previous content "), (len(v)+60000)/23+1), 0o644)
 				}
@@ -321,7 +329,7 @@ func runC19(r *vrt.Run, c C19Case, work string) (o c19Out) {
 		}
 		if c.Scenario == "force-over-existing" {
 			for k, v := range want {
-				dec, err := decodeFile(filepath.Join(work, "out", k+".knz"))
+				dec, err := decodeFile(filepath.Join(work, "out"+sfx, k+".knz"))
 				if err != nil || !bytes.Equal(dec, v) {
 					o.msg = fmt.Sprintf("-f over a longer existing output: %q does not decode to its source (%v)", k+".knz", err)
 					return
@@ -665,7 +673,7 @@ func c19Eval(r *vrt.Run, c C19Case, work string) c19Out {
 
 var c19Names = []string{"a.txt", "data.bin", "with space.dat", "x.y.z", "archive.knz", "noext", "UPPER.TXT", ".hidden", "long_name_0123456789_abcdefghij.log", "é-utf8.txt",
 	"none", "stdout", "NONE", "b"}
-var c19Spells = []string{"", "", "dot-slash", "trailing-slash", "dot-slash-trailing", "abs", "dotdot", "double-slash", "cwd-dot", "norec"}
+var c19Spells = []string{"", "", "dot-slash", "trailing-slash", "dot-slash-trailing", "abs", "dotdot", "double-slash", "cwd-dot", "norec", "named-dot"}
 var c19Dirs = []string{"", "", "sub", "sub/deeper", "other dir", "sub/deeper/deepest"}
 
 func drawC19(t *rapid.T, maxFile int, scenarios []string) C19Case {
